@@ -492,6 +492,32 @@ def stepC12 (ts : List String) : String :=
     | _, _, _ => "bad-op"
   | _ => "bad-op"
 
+def ratList? (ts : List String) : Option (List Rat) := ts.mapM rat?
+
+/-- `C13 resp n klen ref mu sigma <n data> <klen kernel>` → responses and correlations;
+    `C13 peak rows n <rows*n values>` → itemp peak -/
+def stepC13 (ts : List String) : String :=
+  match ts with
+  | "resp" :: n :: klen :: ref :: mu :: sg :: rest =>
+    match n.toNat?, klen.toNat?, ref.toNat?, rat? mu, rat? sg, ratList? rest with
+    | some n, some klen, some ref, some mu, some sg, some xs =>
+      if xs.length ≠ n + klen then "bad-op" else
+      let data := xs.take n
+      let kern := xs.drop n
+      let r := MatchedFilter.response data kern ref mu sg
+      let c := (List.range n).map (MatchedFilter.correlationAt data kern ref mu sg)
+      s!"ok {" ".intercalate (r.map showRat)} | {" ".intercalate (c.map showRat)}"
+    | _, _, _, _, _, _ => "bad-op"
+  | "peak" :: rows :: n :: rest =>
+    match rows.toNat?, n.toNat?, ratList? rest with
+    | some rows, some n, some xs =>
+      if xs.length ≠ rows * n then "bad-op" else
+      let convs := (List.range rows).map (fun i => (xs.drop (i * n)).take n)
+      let (it, pk) := MatchedFilter.peakOf convs
+      s!"ok {it} {pk}"
+    | _, _, _ => "bad-op"
+  | _ => "bad-op"
+
 def step (line : String) : String :=
   match (line.trimAscii.toString.splitOn " ").filter (· ≠ "") with
   | "C03" :: rest => stepC03 rest
@@ -505,6 +531,7 @@ def step (line : String) : String :=
   | "C11" :: rest => stepC11 rest
   | "C17" :: rest => stepC17 rest
   | "C12" :: rest => stepC12 rest
+  | "C13" :: rest => stepC13 rest
   | "C04" :: rest => stepC04 rest
   | "C10" :: rest => stepC10 rest
   | _ => "bad-op"
